@@ -270,9 +270,14 @@ func (w *evictWorld) assertVictimsEligible(reclaim bool, tag string) {
 
 // VerifC06_ReclaimAction: the real reclaim action (JobsOrderByQueues, JobSolver, scenario builder,
 // proportion's reclaim validators, minruntime filters, Statement commit) on a full node.
-// BOUND: 1 node; queues d <- qa, qb, qc; 1..2 running single-pod jobs in qb/qc (symbolic cpu, preemptibility, age 0..63 h), one pending job in qa; reclaim min-runtimes unset or 0..63 h on d and qb; symbolic deserved quotas and fair shares
+// BOUND: 1 node; queues d <- qa, qb, qc; one running single-pod job in qb; quick: every pod 16 milli-cpu; thorough: independent symbolic cpu sizes; preemptibility and age 0..63 h symbolic, one pending job in qa; reclaim min-runtimes unset or 0..63 h on d and qb; symbolic deserved quotas and fair shares
 func VerifC06_ReclaimAction() {
-	w := actEvictWorld(evictOpts{bits: 6, nVictims: vr.Bound("victims", 1, 2), victimQ: []string{"qb"}, pendingQ: "qa", minRuntime: true, nodeSlack: true})
+	// quick: every pod requests 16 milli-cpu (eligibility does not depend on sizes); thorough: independent symbolic sizes, 1 victim
+	o := evictOpts{bits: 6, nVictims: 1, victimQ: []string{"qb"}, pendingQ: "qa", minRuntime: true, nodeSlack: true, sameCpu: true, fixedCpu: 16}
+	if vr.Bound("symbolicSizes", 0, 1) == 1 {
+		o = evictOpts{bits: 6, nVictims: 1, victimQ: []string{"qb"}, pendingQ: "qa", minRuntime: true, nodeSlack: true}
+	}
+	w := actEvictWorld(o)
 	reclaim.New().Execute(w.ssn)
 	w.observe()
 	w.assertVictimsEligible(true, "reclaim")
